@@ -231,6 +231,9 @@ impl Linker {
 
         file_loader.verify_inputs_unchanged()?;
 
+        #[cfg(wild_verif)]
+        crate::verif::fault_point("verified")?;
+
         // Write the dependency file and inputs trace after successful linking.
         if result.is_ok() {
             if let Some(dep_file_path) = &args.dependency_file() {
@@ -250,6 +253,9 @@ impl Linker {
             }
         }
 
+        #[cfg(wild_verif)]
+        crate::verif::fault_point("finished")?;
+
         result
     }
 
@@ -265,6 +271,9 @@ impl Linker {
         args.common().save_dir.finish(file_loader, args)?;
 
         let loaded = loaded?;
+
+        #[cfg(wild_verif)]
+        crate::verif::fault_point("loaded")?;
 
         let output_kind = OutputKind::new(args, file_loader);
 
@@ -290,6 +299,9 @@ impl Linker {
         // TODO: Doing this here means that we can't wrap symbols produced by the linker plugin.
         // Moving it earlier or later however requires some rethought as to how this works.
         symbol_db.apply_wrapped_symbol_overrides();
+
+        #[cfg(wild_verif)]
+        crate::verif::fault_point("symbols")?;
 
         let mut resolver = resolution::Resolver::default();
 
@@ -324,6 +336,9 @@ impl Linker {
             symbol_db.handle_rust_version_script(rust_vscript, &mut per_symbol_flags);
         }
 
+        #[cfg(wild_verif)]
+        crate::verif::fault_point("resolved")?;
+
         let layout_rules = layout_rules_builder.build::<P>();
 
         let resolved = resolver.resolve_sections_and_canonicalise_undefined(
@@ -341,7 +356,13 @@ impl Linker {
             &mut output,
         )?;
 
+        #[cfg(wild_verif)]
+        crate::verif::fault_point("laid_out")?;
+
         P::write_output_file::<A>(&output, &layout)?;
+        #[cfg(wild_verif)]
+        crate::verif::fault_point("written")?;
+
         diff::maybe_diff()?;
 
         // We've finished linking. We consider everything from this point onwards as shutdown.
